@@ -132,6 +132,18 @@ CHECKS = {
              "the Exception state are left free; the state after the fault is the time-before of the following transition. Unbounded persistent faults (a handler that panics for ever) are not cases.",
         technique="fault injection at every enumerated handler position (panic / stall) with post-fault oracle and liveness probe; crash and hang attribution per case",
         engine="faults", design_ref="5/C08"),
+    "C09": dict(
+        level="exploration",
+        text="A live Server+Client pair over a harness-controlled loopback proxy per (sync configuration x push interval x fault script): {schema, no-schema} x {all, allow-list, skip-list} x "
+             "{deep, shallow, per-mutation} x PushInterval {0, 1ms, 20ms} x fault {none, cut, cut+refuse, stall}. 1-2 goroutines mutate the source locally (incl. canceled and no-op mutations) while a "
+             "client goroutine issues 10-25 mutations through the network machine on disjoint states; the fault lands at a PRNG-chosen call. Once the source stops, the client is Ready again and the "
+             "system is stable (>=3 'nothing to push' decisions counted at a verif schedule point after the last change, no bytes in flight; an explicit Sync when pushes are off) the mirror must equal "
+             "the source on every synchronised state. An Executed client mutation must have an accepted source transition with the same uid and be visible on the mirror at return. Scripted: a reply "
+             "parked at srv.reply.unlocked while a later push overtakes it on the wire. A call that never returns is classified from the goroutine dump.",
+        note="Liveness is restated as a stable-state claim; not stable within the watchdog is inconclusive. Canceled results are not judged (the source itself may report Canceled for a mutation another goroutine drained). "
+             "Only states both sides track are compared.",
+        technique="runtime monitor: fault-injecting proxy + schedule-point counters for stability, mirror-vs-source oracle at quiescence, uid-matched result oracle",
+        engine="rpcloop", design_ref="5/C09"),
     "C10": dict(
         level="exploration",
         text="One live Server+Client pair per configuration (1..3 states quick / 1..4 thorough; all | every allow-list | every skip-list; schema-synced | schema-less; deep | shallow | per-mutation) "
